@@ -1112,6 +1112,9 @@ func (s *BgpServer) getBestFromLocalCallbackLocked(peer *peer, rfList []bgp.Fami
 					}
 					added[prefix]++
 				}
+				if addPath {
+					peer.unsetPathSendMaxFiltered(p)
+				}
 				pathList = append(pathList, p)
 			} else {
 				filtered = append(filtered, filteredPathForPeer(peer, path))
@@ -1590,6 +1593,8 @@ func (s *BgpServer) propagateUpdateToNeighbors(rib *table.TableManager, source *
 						if !alreadySent {
 							targetPeer.updateRoutes(newPath)
 						}
+						// an earlier version of the path may have been held back by send-max
+						targetPeer.unsetPathSendMaxFiltered(newPath)
 						if newPath.GetFamily() == bgp.RF_RTC_UC {
 							// we assumes that new "path" nlri was already sent before. This assumption avoids the
 							// infinite UPDATE loop between Route Reflector and its clients.
